@@ -18,21 +18,12 @@ Record R (i : istate) (s : sstate) : Prop := mkR {
   R_fview : sfview s = option_map erase (fview i);
   R_wf : fwf (fs i);
   R_rootmemo : memo_ok (rootv i);
+  R_fmemo : forall v, fview i = Some v -> memo_ok v;
   R_rootkind : kind (rootv i) = VRoot;
   R_uroot : u_ok (hp i) (ufs (rootv i));
   R_ufview : forall v, fview i = Some v -> u_ok (hp i) (ufs v) }.
 
 (* ---------- small facts ---------- *)
-Lemma ustate_eqb_true a b : ustate_eqb a b = true -> a = b.
-Proof.
-  destruct a as [n x], b as [m y]. unfold ustate_eqb. cbn [fst snd]. intros H.
-  apply andb_prop in H. destruct H as [H1 H2]. apply Nat.eqb_eq in H1. subst.
-  destruct x, y; try discriminate; reflexivity.
-Qed.
-Lemma ou_eqb_true a b : ou_eqb a b = true -> a = b.
-Proof.
-  destruct a, b; cbn; intros H; try discriminate; auto. f_equal. apply ustate_eqb_true. exact H.
-Qed.
 Lemma eff_u_memo_ok v : memo_ok v -> eff_u v = ufs v.
 Proof.
   intros [M _]. unfold eff_u. destruct (ufs v) as [u|] eqn:U; auto.
@@ -87,17 +78,19 @@ Lemma cur_u_ok i s : R i s -> u_ok (hp i) (ufs (cur_view i)).
 Proof.
   intros H. unfold cur_view. destruct (fview i) eqn:F; [apply (R_ufview _ _ H); exact F|apply (R_uroot _ _ H)].
 Qed.
-Lemma cur_memo_root i s : R i s -> fview i = None -> memo_ok (cur_view i) /\ kind (cur_view i) = VRoot.
+Lemma cur_memo i s : R i s -> memo_ok (cur_view i).
 Proof.
-  intros H F. unfold cur_view. rewrite F. split; [apply (R_rootmemo _ _ H)|apply (R_rootkind _ _ H)].
+  intros H. unfold cur_view. destruct (fview i) eqn:F; [apply (R_fmemo _ _ H); exact F|apply (R_rootmemo _ _ H)].
 Qed.
+Lemma cur_kind_root i s : R i s -> fview i = None -> kind (cur_view i) = VRoot.
+Proof. intros H F. unfold cur_view. rewrite F. apply (R_rootkind _ _ H). Qed.
 Lemma u_ok_len h h' u : length h' = length h -> u_ok h u -> u_ok h' u.
 Proof. unfold u_ok. destruct u; auto. intros ->. auto. Qed.
 
 (* rebuilding R after a call that replaced the fetch state, the seen-sets and the current view's memo *)
 Lemma R_fetch i s v1 f1 h1 r cl :
   R i s -> kind v1 = kind (cur_view i) -> cols v1 = cols (cur_view i) -> ufs v1 = ufs (cur_view i) ->
-  (fview i = None -> memo_ok v1) ->
+  memo_ok v1 ->
   remaining f1 = r -> hardc f1 = cl -> fwf f1 -> length h1 = length (hp i) ->
   R (with_fetch i v1 f1 h1)
     {| rem := r; sclosed := cl; syp := syp s; shp := h1; sroot := sroot s; sfview := sfview s |}.
@@ -105,17 +98,24 @@ Proof.
   intros H K C U M Hr Hcl W L.
   pose proof (erase_eq _ _ K C U) as Er.
   unfold with_fetch, set_cur_view, cur_view in *. cbn [fview].
-  destruct (fview i) as [v0|] eqn:F; constructor; cbn; auto;
-    try (apply (R_yp _ _ H)); try (apply (R_rootmemo _ _ H)); try (apply (R_rootkind _ _ H)).
-  - apply (R_root _ _ H).
-  - rewrite (R_fview _ _ H), F. cbn. f_equal. symmetry. exact Er.
-  - apply (u_ok_len (hp i)); [exact L|apply (R_uroot _ _ H)].
-  - intros v Hv. inversion Hv; subst. rewrite U. apply (u_ok_len (hp i)); [exact L|]. apply (R_ufview _ _ H v0 F).
-  - rewrite (R_root _ _ H). symmetry. exact Er.
-  - rewrite (R_fview _ _ H), F. reflexivity.
-  - rewrite K. apply (R_rootkind _ _ H).
-  - rewrite U. apply (u_ok_len (hp i)); [exact L|apply (R_uroot _ _ H)].
-  - intros v Hv. discriminate.
+  destruct (fview i) as [v0|] eqn:F.
+  - constructor; cbn [fs yp hp rootv fview rem sclosed syp shp sroot sfview]; auto.
+    + apply (R_yp _ _ H).
+    + apply (R_root _ _ H).
+    + rewrite (R_fview _ _ H), F. cbn. f_equal. symmetry. exact Er.
+    + apply (R_rootmemo _ _ H).
+    + intros v Hv. inversion Hv; subst. exact M.
+    + apply (R_rootkind _ _ H).
+    + apply (u_ok_len (hp i)); [exact L|apply (R_uroot _ _ H)].
+    + intros v Hv. inversion Hv; subst. rewrite U. apply (u_ok_len (hp i)); [exact L|]. apply (R_ufview _ _ H v0 F).
+  - constructor; cbn [fs yp hp rootv fview rem sclosed syp shp sroot sfview]; auto.
+    + apply (R_yp _ _ H).
+    + rewrite (R_root _ _ H). symmetry. exact Er.
+    + rewrite (R_fview _ _ H), F. reflexivity.
+    + intros v Hv. discriminate.
+    + rewrite K. apply (R_rootkind _ _ H).
+    + rewrite U. apply (u_ok_len (hp i)); [exact L|apply (R_uroot _ _ H)].
+    + intros v Hv. discriminate.
 Qed.
 
 (* only the memo of the current view changed *)
@@ -123,19 +123,15 @@ Lemma R_getter i s g cu v1 : R i s -> use_getter g (cur_view i) = (cu, v1) ->
   R (with_fetch i v1 (fs i) (hp i)) s.
 Proof.
   intros H E. destruct (use_getter_fields _ _ _ _ E) as [K [C U]].
-  assert (M : fview i = None -> memo_ok v1).
-  { intros F. destruct (cur_memo_root i s H F) as [Mo _]. apply (use_getter_memo_ok _ _ _ _ E Mo). }
+  assert (M : memo_ok v1) by apply (use_getter_memo_ok _ _ _ _ E (cur_memo i s H)).
   pose proof (R_fetch i s v1 (fs i) (hp i) (rem s) (sclosed s) H K C U M
                 (eq_sym (R_rem _ _ H)) (eq_sym (R_closed _ _ H)) (R_wf _ _ H) eq_refl) as H'.
   rewrite <- (R_hp _ _ H) in H' at 2. destruct s; exact H'.
 Qed.
 
-(* the uniqueness state a getter works with: guaranteed by the guard, or (on the result itself) by memo_ok *)
-Lemma getter_cfg i s g cu v1 : R i s -> use_getter g (cur_view i) = (cu, v1) ->
-  getter_ok g (cur_view i) = true -> cu = ufs (cur_view i).
-Proof.
-  intros H E G. unfold getter_ok in G. rewrite E in G. cbn [fst] in G. apply ou_eqb_true. exact G.
-Qed.
+(* the uniqueness state a (possibly memoised) getter works with is the view's current one *)
+Lemma getter_cfg i s g cu v1 : R i s -> use_getter g (cur_view i) = (cu, v1) -> cu = ufs (cur_view i).
+Proof. intros H E. apply (use_getter_memo_ok _ _ _ _ E (cur_memo i s H)). Qed.
 
 Lemma deliver_unfold i s n : R i s ->
   deliver (scur s) n s =
@@ -166,15 +162,15 @@ Lemma sim_getter_state g cu v1 f1 h1 r :
 Proof.
   intros E Hr Hc L. destruct (use_getter_fields _ _ _ _ E) as [K [C U]].
   rewrite Hsopen. apply R_fetch; auto.
-  - intros F. destruct (cur_memo_root i s HR F) as [Mo _]. apply (use_getter_memo_ok _ _ _ _ E Mo).
+  - apply (use_getter_memo_ok _ _ _ _ E (cur_memo i s HR)).
   - apply fwf_open. exact Hc.
 Qed.
 
-Lemma sim_onerow cu v1 : use_getter GOne v = (cu, v1) -> getter_ok GOne v = true ->
+Lemma sim_onerow cu v1 : use_getter GOne v = (cu, v1) ->
   exists f1 h1 d s1, onerow cu (cols v) (fs i) (hp i) = (f1, h1, Ok (hd_error d)) /\
     deliver (scur s) 1 s = (d, s1) /\ R (with_fetch i v1 f1 h1) s1.
 Proof.
-  intros E G. pose proof (getter_cfg i s _ _ _ HR E G) as Hcu. fold v in Hcu. subst cu.
+  intros E. pose proof (getter_cfg i s _ _ _ HR E) as Hcu. fold v in Hcu. subst cu.
   rewrite (deliver_unfold i s 1 HR). fold v.
   destruct (adeliver (ufs v) (cols v) 1 (remaining (fs i)) (hp i)) as [[d r] h'] eqn:A.
   destruct (onerow_ok _ _ _ _ _ _ _ Hopen A) as [f1 [E1 [R1 Hc1]]].
@@ -182,11 +178,11 @@ Proof.
   apply (sim_getter_state GOne _ _ _ _ _ E R1 Hc1 (adeliver_len _ _ _ _ _ _ _ _ A)).
 Qed.
 
-Lemma sim_iter k cu v1 : use_getter GIter v = (cu, v1) -> getter_ok GIter v = true ->
+Lemma sim_iter k cu v1 : use_getter GIter v = (cu, v1) ->
   exists f1 h1 d s1, iter_loop k cu (cols v) (fs i) (hp i) [] = (f1, h1, Ok (d, length d <? k)) /\
     deliver (scur s) k s = (d, s1) /\ R (with_fetch i v1 f1 h1) s1.
 Proof.
-  intros E G. pose proof (getter_cfg i s _ _ _ HR E G) as Hcu. fold v in Hcu. subst cu.
+  intros E. pose proof (getter_cfg i s _ _ _ HR E) as Hcu. fold v in Hcu. subst cu.
   rewrite (deliver_unfold i s k HR). fold v.
   destruct (adeliver (ufs v) (cols v) k (remaining (fs i)) (hp i)) as [[d r] h'] eqn:A.
   destruct (iter_loop_ok (ufs v) (cols v) k (fs i) (hp i) [] d r h' Hopen (cur_u_ok i s HR) A) as [f1 [E1 [R1 Hc1]]].
@@ -206,11 +202,11 @@ Proof.
   - destruct (yp i) as [[|y]|]; try discriminate. apply manyrows_none_ok; auto.
 Qed.
 
-Lemma sim_many n cu v1 : use_getter GMany v = (cu, v1) -> getter_ok GMany v = true -> size_ok n (yp i) = true ->
+Lemma sim_many n cu v1 : use_getter GMany v = (cu, v1) -> size_ok n (yp i) = true ->
   exists f1 h1 d s1, manyrows cu (yp i) (cols v) n (fs i) (hp i) = (f1, h1, Ok d) /\
     deliver (scur s) (size_of n (syp s)) s = (d, s1) /\ R (with_fetch i v1 f1 h1) s1.
 Proof.
-  intros E G Sz. pose proof (getter_cfg i s _ _ _ HR E G) as Hcu. fold v in Hcu. subst cu.
+  intros E Sz. pose proof (getter_cfg i s _ _ _ HR E) as Hcu. fold v in Hcu. subst cu.
   rewrite (deliver_unfold i s _ HR). fold v.
   destruct (adeliver (ufs v) (cols v) (size_of n (syp s)) (remaining (fs i)) (hp i)) as [[d r] h'] eqn:A.
   destruct (manyrows_sized n Sz (fs i) (hp i) d r h' Hopen (cur_u_ok i s HR) A) as [f1 [E1 [R1 Hc1]]].
@@ -232,11 +228,11 @@ Proof.
     rewrite IH. cbn [sroot sfview rem shp sclosed syp]. reflexivity.
 Qed.
 
-Lemma sim_parts n k cu v1 : use_getter GMany v = (cu, v1) -> getter_ok GMany v = true -> size_ok n (yp i) = true ->
+Lemma sim_parts n k cu v1 : use_getter GMany v = (cu, v1) -> size_ok n (yp i) = true ->
   exists f1 h1 ps st s1, parts_loop k cu (yp i) (cols v) n (fs i) (hp i) [] = (f1, h1, Ok (ps, st)) /\
     sparts k (scur s) (size_of n (syp s)) s [] = (ps, st, s1) /\ R (with_fetch i v1 f1 h1) s1.
 Proof.
-  intros E G Sz. pose proof (getter_cfg i s _ _ _ HR E G) as Hcu. fold v in Hcu. subst cu.
+  intros E Sz. pose proof (getter_cfg i s _ _ _ HR E) as Hcu. fold v in Hcu. subst cu.
   rewrite (sparts_aparts (scur s) (size_of n (syp s)) k s []).
   rewrite (scur_erase i s HR). cbn [erase sufs scols]. fold v.
   rewrite (R_rem _ _ HR), (R_hp _ _ HR).
@@ -254,18 +250,18 @@ Proof.
     + rewrite (IH _ _ _ A). exact L1.
 Qed.
 
-Lemma sim_all : ou_eqb (eff_u v) (ufs v) = true ->
+Lemma sim_all :
   exists f1 h1 d s1, allrows (eff_u v) (cols v) (fs i) (hp i) = (f1, h1, Ok d) /\
     deliver (scur s) (length (rem s)) s = (d, s1) /\ R (with_fetch i (touch_mu v) f1 h1) s1.
 Proof.
-  intros G. apply ou_eqb_true in G. rewrite G.
+  rewrite (eff_u_memo_ok v (cur_memo i s HR)).
   rewrite (deliver_unfold i s _ HR). fold v. rewrite (R_rem _ _ HR).
   destruct (adeliver (ufs v) (cols v) (length (remaining (fs i))) (remaining (fs i)) (hp i)) as [[d r] h'] eqn:A.
   destruct (allrows_ok _ _ _ _ _ _ _ Hopen A) as [f1 [E1 [R1 [_ Hc1]]]].
   exists f1, h', d. eexists. split; [exact E1|]. split; [reflexivity|].
   destruct (touch_mu_fields v) as [K [C [U _]]].
   rewrite Hsopen. apply R_fetch; auto.
-  - intros F. destruct (cur_memo_root i s HR F) as [Mo _]. apply touch_mu_memo_ok. exact Mo.
+  - apply touch_mu_memo_ok. apply (cur_memo i s HR).
   - apply fwf_open. exact Hc1.
   - apply (adeliver_len _ _ _ _ _ _ _ _ A).
 Qed.
@@ -273,18 +269,15 @@ End Open.
 
 (* ---------- views and configuration ---------- *)
 Lemma R_set_view i s v' :
-  R i s -> (fview i = None -> memo_ok v' /\ kind v' = VRoot) -> u_ok (hp i) (ufs v') ->
+  R i s -> memo_ok v' -> (fview i = None -> kind v' = VRoot) -> u_ok (hp i) (ufs v') ->
   R (set_cur_view i v') (set_scur s (erase v')).
 Proof.
-  intros H M U. unfold set_cur_view, set_scur. rewrite (R_fview _ _ H).
-  destruct (fview i) as [v0|] eqn:F; cbn [option_map]; constructor; cbn;
-    try (apply (R_rem _ _ H)); try (apply (R_closed _ _ H)); try (apply (R_yp _ _ H)); try (apply (R_hp _ _ H));
-    try (apply (R_wf _ _ H)); try (apply (R_rootmemo _ _ H)); try (apply (R_rootkind _ _ H));
-    try (apply (R_uroot _ _ H)); try (apply (R_root _ _ H)); auto.
-  - intros v Hv. inversion Hv; subst. exact U.
-  - apply (proj1 (M eq_refl)).
-  - apply (proj2 (M eq_refl)).
-  - intros v Hv. discriminate.
+  intros H M K U. unfold set_cur_view, set_scur. rewrite (R_fview _ _ H).
+  destruct (fview i) as [v0|] eqn:F; cbn [option_map].
+  - constructor; cbn [fs yp hp rootv fview rem sclosed syp shp sroot sfview option_map]; auto;
+      try (intros v Hv; inversion Hv; subst; assumption); apply H.
+  - constructor; cbn [fs yp hp rootv fview rem sclosed syp shp sroot sfview option_map]; auto;
+      try (intros v Hv; discriminate); apply H.
 Qed.
 
 Lemma R_heap_grow i s : R i s ->
@@ -315,60 +308,59 @@ Proof.
     destruct (kind (cur_view i)) eqn:K;
       try (cbn; split; [reflexivity|exact H]);
       (destruct (use_getter GOne (cur_view i)) as [cu v1] eqn:E; rewrite CL;
-       destruct (hardc (fs i)) eqn:Hc; cbn [orb] in G;
+       destruct (hardc (fs i)) eqn:Hc;
        [ rewrite (onerow_closed cu _ _ _ (R_wf _ _ H) Hc); cbn; split; [reflexivity|apply (R_getter i s _ _ _ H E)]
-       | destruct (sim_onerow i s H Hc cu v1 E G) as [f1 [h1 [d [s1 [E1 [E2 R']]]]]];
+       | destruct (sim_onerow i s H Hc cu v1 E) as [f1 [h1 [d [s1 [E1 [E2 R']]]]]];
          rewrite E1, E2; cbn [fst snd out_of]; split; [apply hd_error_case|exact R'] ]).
   - (* next *)
     destruct (use_getter GOne (cur_view i)) as [cu v1] eqn:E; rewrite CL.
-    destruct (hardc (fs i)) eqn:Hc; cbn [orb] in G.
+    destruct (hardc (fs i)) eqn:Hc.
     + rewrite (onerow_closed cu _ _ _ (R_wf _ _ H) Hc). cbn. split; [reflexivity|apply (R_getter i s _ _ _ H E)].
-    + destruct (sim_onerow i s H Hc cu v1 E G) as [f1 [h1 [d [s1 [E1 [E2 R']]]]]].
+    + destruct (sim_onerow i s H Hc cu v1 E) as [f1 [h1 [d [s1 [E1 [E2 R']]]]]].
       rewrite E1, E2. cbn [fst snd out_of]. split; [apply hd_error_case|exact R'].
   - (* iterate *)
     destruct (use_getter GIter (cur_view i)) as [cu v1] eqn:E. rewrite CL.
-    destruct (hardc (fs i)) eqn:Hc; cbn [orb] in G.
+    destruct (hardc (fs i)) eqn:Hc.
     + destruct k as [|k].
       * cbn. split; [reflexivity|apply (R_getter i s _ _ _ H E)].
       * rewrite (iter_loop_closed cu _ k _ _ _ (R_wf _ _ H) Hc). cbn. split; [reflexivity|apply (R_getter i s _ _ _ H E)].
-    + destruct (sim_iter i s H Hc k cu v1 E G) as [f1 [h1 [d [s1 [E1 [E2 R']]]]]]. rewrite E1.
+    + destruct (sim_iter i s H Hc k cu v1 E) as [f1 [h1 [d [s1 [E1 [E2 R']]]]]]. rewrite E1.
       destruct k as [|k].
       * cbn [fst snd out_of]. cbn [iter_loop] in E1. inversion E1; subst.
         split; [reflexivity|apply (R_getter i s _ _ _ H E)].
       * rewrite E2. cbn [fst snd out_of]. split; [reflexivity|exact R'].
   - (* fetchmany *)
-    apply andb_prop in G. destruct G as [Sz G].
+    pose proof G as Sz.
     destruct (use_getter GMany (cur_view i)) as [cu v1] eqn:E. rewrite CL.
-    destruct (hardc (fs i)) eqn:Hc; cbn [orb] in G.
+    destruct (hardc (fs i)) eqn:Hc.
     + rewrite (manyrows_closed cu _ _ n _ _ (R_wf _ _ H) Hc).
       * cbn. split; [reflexivity|apply (R_getter i s _ _ _ H E)].
       * unfold size_ok in Sz. destruct n as [n|]; auto. destruct (yp i) as [[|y]|]; auto; discriminate.
       * unfold size_ok in Sz. destruct n as [[|n]|]; auto. discriminate.
-    + destruct (sim_many i s H Hc n cu v1 E G Sz) as [f1 [h1 [d [s1 [E1 [E2 R']]]]]].
+    + destruct (sim_many i s H Hc n cu v1 E Sz) as [f1 [h1 [d [s1 [E1 [E2 R']]]]]].
       rewrite E1, E2. cbn [fst snd out_of]. split; [reflexivity|exact R'].
   - (* partitions *)
     destruct k as [|k]; [cbn; split; [reflexivity|exact H]|].
-    cbn [Nat.eqb orb] in G. apply andb_prop in G. destruct G as [Sz G].
+    cbn [Nat.eqb orb] in G. pose proof G as Sz.
     destruct (use_getter GMany (cur_view i)) as [cu v1] eqn:E. rewrite CL.
-    destruct (hardc (fs i)) eqn:Hc; cbn [orb] in G.
+    destruct (hardc (fs i)) eqn:Hc.
     + cbn [parts_loop]. rewrite (manyrows_closed cu _ _ n _ _ (R_wf _ _ H) Hc).
       * cbn. split; [reflexivity|apply (R_getter i s _ _ _ H E)].
       * unfold size_ok in Sz. destruct n as [n|]; auto. destruct (yp i) as [[|y]|]; auto; discriminate.
       * unfold size_ok in Sz. destruct n as [[|n]|]; auto. discriminate.
-    + destruct (sim_parts i s H Hc n (S k) cu v1 E G Sz) as [f1 [h1 [ps [st [s1 [E1 [E2 R']]]]]]].
+    + destruct (sim_parts i s H Hc n (S k) cu v1 E Sz) as [f1 [h1 [ps [st [s1 [E1 [E2 R']]]]]]].
       rewrite E1, E2. cbn [fst snd out_of]. split; [reflexivity|exact R'].
   - (* all *)
-    rewrite CL. destruct (hardc (fs i)) eqn:Hc; cbn [orb] in G.
+    rewrite CL. destruct (hardc (fs i)) eqn:Hc.
     + rewrite (allrows_closed _ _ _ _ (R_wf _ _ H) Hc). cbn [fst snd out_of closed_err]. split; [reflexivity|].
       assert (E : with_fetch i (cur_view i) (fs i) (hp i) = i).
       { unfold with_fetch, set_cur_view, cur_view. cbn [fview]. destruct i as [a b c d e]; cbn. destruct e; reflexivity. }
       rewrite E. exact H.
-    + destruct (sim_all i s H Hc G) as [f1 [h1 [d [s1 [E1 [E2 R']]]]]].
+    + destruct (sim_all i s H Hc) as [f1 [h1 [d [s1 [E1 [E2 R']]]]]].
       rewrite E1, E2. cbn [fst snd out_of]. split; [reflexivity|exact R'].
   - (* first / one / one_or_none / scalar... *)
     destruct (oo_flags w) as [[second none] scalar] eqn:FL.
-    assert (Main : (hardc (fs i) || ((negb second || ou_eqb (eff_u (cur_view i)) (ufs (cur_view i)))
-                       && seen_empty (hp i) (cur_view i) && negb (softc (fs i)))) = true ->
+    assert (Main : (hardc (fs i) || (seen_empty (hp i) (cur_view i) && negb (softc (fs i)))) = true ->
       snd (let '(f1, r) := only_one_row (cur_view i) second none scalar (fs i) in
            (with_fetch i (cur_view i) f1 (hp i),
             out_of (fun x => match x with Some it => OItem it | None => ONoRow end) r)) =
@@ -400,10 +392,10 @@ Proof.
         assert (E : with_fetch i (cur_view i) (fs i) (hp i) = i).
         { unfold with_fetch, set_cur_view, cur_view. cbn [fview]. destruct i as [a b c d e]; cbn. destruct e; reflexivity. }
         rewrite E. exact H.
-      - apply andb_prop in G'. destruct G' as [G1 G3]. apply andb_prop in G1. destruct G1 as [G1 G2].
+      - apply andb_prop in G'. destruct G' as [G2 G3].
         apply negb_true_iff in G3.
-        assert (Heff : second = true -> eff_u (cur_view i) = ufs (cur_view i)).
-        { intros ->. cbn in G1. apply ou_eqb_true. exact G1. }
+        assert (Heff : second = true -> eff_u (cur_view i) = ufs (cur_view i))
+          by (intros _; apply eff_u_memo_ok; apply (cur_memo i s H)).
         destruct (only_one_ok (cur_view i) second none scalar (fs i) (hp i) Hc G3 G2 Heff) as [f1 [E1 [R1 [Hc1 W1]]]].
         rewrite E1. cbn [fst snd]. unfold peek2. rewrite SC. cbn [erase sufs scols].
         rewrite (R_rem _ _ H), (R_hp _ _ H).
@@ -411,40 +403,41 @@ Proof.
         + split; [cbn [only_one_spec]; destruct none; reflexivity|].
           unfold close_spec. rewrite (R_hp _ _ H).
           apply (R_fetch i s (cur_view i) f1 (hp i) [] true H); auto.
-          intros F. apply (cur_memo_root i s H F).
+          apply (cur_memo i s H).
         + split; [cbn [only_one_spec]; destruct more, second; reflexivity|].
           unfold close_spec. rewrite (R_hp _ _ H).
           apply (R_fetch i s (cur_view i) f1 (hp i) [] true H); auto.
-          intros F. apply (cur_memo_root i s H F). }
+          apply (cur_memo i s H). }
     destruct (kind (cur_view i)) eqn:K; destruct scalar; cbn [fst snd];
       try (split; [reflexivity|exact H]); apply Main; exact G.
   - (* back to the result *)
-    cbn. split; [reflexivity|]. constructor; cbn; try (apply H); auto. intros v Hv; discriminate.
+    cbn. split; [reflexivity|]. constructor; cbn; try (intros v Hv; discriminate); try (apply H); auto.
   - (* scalars *)
     rewrite (R_root _ _ H). cbn [erase scols sufs].
     destruct (reduce_cols (cols (rootv i)) [i0]) as [c|]; cbn [fst snd]; [|split; [reflexivity|exact H]].
     split; [reflexivity|]. constructor; cbn; try (apply H); auto.
-    intros v Hv. inversion Hv; subst. cbn. apply (R_uroot _ _ H).
+    + intros v Hv. inversion Hv; subst. apply memo_ok_mkview.
+    + intros v Hv. inversion Hv; subst. cbn. apply (R_uroot _ _ H).
   - (* mappings *)
     rewrite (R_root _ _ H). cbn [erase scols sufs fst snd].
     split; [reflexivity|]. constructor; cbn; try (apply H); auto.
-    intros v Hv. inversion Hv; subst. cbn. apply (R_uroot _ _ H).
+    + intros v Hv. inversion Hv; subst. apply memo_ok_mkview.
+    + intros v Hv. inversion Hv; subst. cbn. apply (R_uroot _ _ H).
   - (* columns *)
-    assert (Hm : forall c, fview i = None ->
-                 memo_ok (set_cols (reset_memo (cur_view i)) c) /\ kind (set_cols (reset_memo (cur_view i)) c) = VRoot).
-    { intros c F. split; [apply memo_ok_mkview|]. cbn. apply (cur_memo_root i s H F). }
+    assert (Hm : forall c, fview i = None -> kind (set_cols (reset_memo (cur_view i)) c) = VRoot).
+    { intros c F. cbn. apply (cur_kind_root i s H F). }
     destruct (kind (cur_view i)) eqn:K; try (cbn; split; [reflexivity|exact H]);
       (destruct (reduce_cols (cols (cur_view i)) idx) as [c|]; cbn [fst snd]; split; try reflexivity;
        [ match goal with |- R _ (set_scur s ?sv) =>
            assert (E : sv = erase (set_cols (reset_memo (cur_view i)) c))
              by (unfold erase; cbn; rewrite K; reflexivity); rewrite E end;
-         apply (R_set_view i s (set_cols (reset_memo (cur_view i)) c) H (Hm c)); cbn; apply (cur_u_ok i s H)
+         apply (R_set_view i s (set_cols (reset_memo (cur_view i)) c) H (memo_ok_mkview _ _ _) (Hm c)); cbn; apply (cur_u_ok i s H)
        | pose proof (R_set_view i s (reset_memo (cur_view i)) H) as H';
          assert (E : erase (reset_memo (cur_view i)) = scur s) by (rewrite SC; reflexivity);
          rewrite E in H';
          assert (E2 : set_scur s (scur s) = s) by (unfold set_scur, scur; destruct s as [a b c d e f]; cbn; destruct f; reflexivity);
          rewrite E2 in H'; apply H';
-         [ intros F; split; [apply memo_ok_mkview|cbn; apply (cur_memo_root i s H F)] | cbn; apply (cur_u_ok i s H) ] ]).
+         [ apply memo_ok_mkview | intros F; cbn; apply (cur_kind_root i s H F) | cbn; apply (cur_u_ok i s H) ] ]).
   - (* unique *)
     cbn [fst snd]. split; [reflexivity|].
     pose proof (R_heap_grow i s H) as H'.
@@ -454,31 +447,27 @@ Proof.
     set (u := Some (length (hp i), st)).
     assert (Uok : u_ok (hp i') u) by (cbn; rewrite app_length; cbn; lia).
     rewrite (R_hp _ _ H).
-    destruct (kind (cur_view i)) eqn:K.
-    + pose proof (R_set_view i' s' (set_ufs (reset_memo (cur_view i)) u) H') as H2.
-      assert (E : erase (set_ufs (reset_memo (cur_view i)) u) =
-                  {| skind := kind (cur_view i); scols := cols (cur_view i); sufs := u |}) by reflexivity.
-      rewrite E in H2. rewrite K in H2. apply H2; [|exact Uok].
-      intros F. split; [split; [cbn; intros; discriminate|intros [] c0; cbn; intros; discriminate]|]. cbn. exact K.
-    + pose proof (R_set_view i' s' (set_ufs (cur_view i) u) H') as H2.
-      assert (E : erase (set_ufs (cur_view i) u) =
-                  {| skind := kind (cur_view i); scols := cols (cur_view i); sufs := u |}) by reflexivity.
-      rewrite E in H2. rewrite K in H2. apply H2; [|exact Uok].
-      intros F. exfalso. destruct (cur_memo_root i s H F) as [_ K']. congruence.
-    + pose proof (R_set_view i' s' (set_ufs (cur_view i) u) H') as H2.
-      assert (E : erase (set_ufs (cur_view i) u) =
-                  {| skind := kind (cur_view i); scols := cols (cur_view i); sufs := u |}) by reflexivity.
-      rewrite E in H2. rewrite K in H2. apply H2; [|exact Uok].
-      intros F. exfalso. destruct (cur_memo_root i s H F) as [_ K']. congruence.
+    pose proof (R_set_view i' s' (set_ufs (reset_memo (cur_view i)) u) H') as H2.
+    assert (E : erase (set_ufs (reset_memo (cur_view i)) u) =
+                {| skind := kind (cur_view i); scols := cols (cur_view i); sufs := u |}) by reflexivity.
+    rewrite E in H2. apply H2; [| |exact Uok].
+    + split; [cbn; intros; discriminate|intros [] c0; cbn; intros; discriminate].
+    + intros F. cbn. apply (cur_kind_root i s H F).
   - (* yield_per *)
     cbn [fst snd]. split; [reflexivity|].
     destruct (yield_per_remaining n (fs i)) as [Y1 Y2].
-    constructor; cbn; try (apply H); auto.
-    + rewrite Y1. apply H.
-    + rewrite Y2. apply H.
+    constructor; cbn [fs yp hp rootv fview rem sclosed syp shp sroot sfview].
+    + rewrite Y1. apply (R_rem _ _ H).
+    + rewrite Y2. apply (R_closed _ _ H).
+    + reflexivity.
+    + apply (R_hp _ _ H).
+    + exact (R_root _ _ H).
     + rewrite (R_fview _ _ H). destruct (fview i); reflexivity.
-    + apply yield_per_fwf. apply H.
+    + apply yield_per_fwf. apply (R_wf _ _ H).
     + apply memo_ok_mkview.
+    + intros v Hv. destruct (fview i) as [v0|]; [|discriminate]. inversion Hv; subst. apply memo_ok_mkview.
+    + exact (R_rootkind _ _ H).
+    + exact (R_uroot _ _ H).
     + intros v Hv. destruct (fview i) as [v0|] eqn:F; [|discriminate]. inversion Hv; subst. cbn.
       apply (R_ufview _ _ H v0 F).
   - (* close *)
@@ -494,10 +483,9 @@ Proof.
         as [[d r] h'] eqn:A.
       destruct (allrows_ok _ _ _ _ _ _ _ Hc A) as [f1 [E1 [R1 [_ Hc1]]]].
       rewrite E1. cbn [fst snd shp]. split; [reflexivity|].
-      constructor; cbn; auto.
+      constructor; cbn; auto; try (intros v Hv; discriminate).
       * intros Hx; discriminate.
       * apply memo_ok_mkview.
-      * intros v Hv; discriminate.
 Qed.
 
 (* ---------- any sequence of calls ---------- *)
@@ -512,11 +500,10 @@ Qed.
 
 Lemma R_init st w rows : R (init_state st w rows) (init_spec w rows).
 Proof.
-  constructor; cbn; auto.
+  constructor; cbn; auto; try (intros v Hv; discriminate).
   - unfold remaining. cbn. symmetry. apply init_remaining.
   - intros Hx; discriminate.
   - apply memo_ok_mkview.
-  - intros v Hv; discriminate.
 Qed.
 
 Theorem all_sequences_guarded st w rows ops :
